@@ -47,7 +47,10 @@ static void m_build(void)
     }
     if (!m_par) for (i = 0; i < m_ntw; ++i) { m_ops[m_nops].type = M_TWEAK; m_ops[m_nops].a = i; ++m_nops; }
     m_ops[m_nops].type = M_SWAP; ++m_nops;
-    if (!m_par) { m_ops[m_nops].type = M_BADTWEAK; m_ops[m_nops].a = 7; ++m_nops; m_ops[m_nops].type = M_BADTWEAK; m_ops[m_nops].a = 9; ++m_nops; }
+    if (!m_par) {
+        int nul;
+        for (nul = 0; nul < 2; ++nul) { m_ops[m_nops].type = M_BADTWEAK; m_ops[m_nops].a = 7; m_ops[m_nops].c = nul; ++m_nops; m_ops[m_nops].type = M_BADTWEAK; m_ops[m_nops].a = 9; m_ops[m_nops].c = nul; ++m_nops; }
+    }
 }
 
 static void m_reset(void)
@@ -70,7 +73,7 @@ static void m_opname(int op, char *buf, size_t n)
     case M_KEY: snprintf(buf, n, "set_key(K%d,rounds=%d,%s)", o->a, o->b, o->c ? "ENCRYPT" : "DECRYPT"); break;
     case M_TWEAK: snprintf(buf, n, "set_tweak(%s)", M_TWNULL[o->a] ? "NULL" : hexs(M_TW[o->a], 8)); break;
     case M_SWAP: snprintf(buf, n, "swap_modes"); break;
-    default: snprintf(buf, n, "INVALID set_tweak(size %d)", o->a); break;
+    default: snprintf(buf, n, "INVALID set_tweak(%ssize %d)", o->c ? "NULL, " : "", o->a); break;
     }
 }
 
@@ -111,7 +114,7 @@ static void m_apply(int op, int check)
         MW.mode = !MW.mode;
         break;
     default:
-        LIB(r = mantis_set_tweak(&MW.ks, M_TW[1], (unsigned)o->a));
+        LIB(r = mantis_set_tweak(&MW.ks, o->c ? NULL : M_TW[1], (unsigned)o->a));
         break;
     }
     if (!check) return;
@@ -211,8 +214,10 @@ static void t_build(void)
         for (p = 0; p < B; ++p) for (v = 1; v < 256; ++v) { memset(t, 0, 16); t[p] = (uint8_t)v; t_addtw(t, B, 0); }
     for (k = 0; k < 2; ++k) for (l = 1; l <= 2; ++l) { t_ops[t_nops].type = T_TKEY; t_ops[t_nops].a = k; t_ops[t_nops].b = l * B; ++t_nops; }
     for (i = 0; i < t_ntw; ++i) { t_ops[t_nops].type = T_TWEAK; t_ops[t_nops].a = i; ++t_nops; }
-    t_ops[t_nops].type = T_BADTWEAK; t_ops[t_nops].a = 0; ++t_nops;
-    t_ops[t_nops].type = T_BADTWEAK; t_ops[t_nops].a = B + 1; ++t_nops;
+    t_ops[t_nops].type = T_BADTWEAK; t_ops[t_nops].a = 0; t_ops[t_nops].b = 0; ++t_nops;
+    t_ops[t_nops].type = T_BADTWEAK; t_ops[t_nops].a = B + 1; t_ops[t_nops].b = 0; ++t_nops;
+    t_ops[t_nops].type = T_BADTWEAK; t_ops[t_nops].a = 0; t_ops[t_nops].b = 1; ++t_nops;         /* NULL pointer with a bad length */
+    t_ops[t_nops].type = T_BADTWEAK; t_ops[t_nops].a = B + 1; t_ops[t_nops].b = 1; ++t_nops;
     if (t_ctr) {
         /* data calls through the CTR object, so that a tweak change meets buffered keystream: after the change the
          * stream must continue with the next counter block under the key and the latest tweak only */
@@ -274,7 +279,7 @@ static void t_opname(int op, char *buf, size_t n)
     case T_TKEY: snprintf(buf, n, "set_tweaked_key(K%d,%d)", o->a, o->b); break;
     case T_TWEAK: snprintf(buf, n, "set_tweak(%s,%d)", T_TWNULL[o->a] ? "NULL" : hexs(T_TW[o->a], (size_t)T_TWLEN[o->a]), T_TWLEN[o->a]); break;
     case T_ENC: snprintf(buf, n, "ctr_encrypt(%d)", o->a); break;
-    default: snprintf(buf, n, "INVALID set_tweak(size %d)", o->a); break;
+    default: snprintf(buf, n, "INVALID set_tweak(%ssize %d)", o->b ? "NULL, " : "", o->a); break;
     }
 }
 
@@ -390,11 +395,12 @@ static void t_apply(int op, int check)
         memcpy(TW.tweak, T_TW[o->a], 16);      /* already zero padded; zero for null */
         TW.lastop = o->a; TW.ksoff = t_bs; if (TW.ntw < 2) ++TW.ntw; if (TW.nenc) ++TW.nafter;
         break; }
-    default:
-        if (t_ctr) r = ctr_set_tweak(t_c, &TW.co, T_TW[2], (unsigned)o->a);
-        else if (t_c == CK_S128) LIB(r = skinny128_set_tweak(&TW.k128, T_TW[2], (unsigned)o->a));
-        else LIB(r = skinny64_set_tweak(&TW.k64, T_TW[2], (unsigned)o->a));
-        break;
+    default: {
+        const void *bp = o->b ? NULL : T_TW[2];
+        if (t_ctr) r = ctr_set_tweak(t_c, &TW.co, bp, (unsigned)o->a);
+        else if (t_c == CK_S128) LIB(r = skinny128_set_tweak(&TW.k128, bp, (unsigned)o->a));
+        else LIB(r = skinny64_set_tweak(&TW.k64, bp, (unsigned)o->a));
+        break; }
     }
     if (!check) return;
     if (o->type == T_BADTWEAK) {
